@@ -344,6 +344,9 @@ class Host:
         with open(c.event, 'w') as f:
             yaml.safe_dump(c.spec, f, default_flow_style=False)
         c.manifest = app_configure.load_runtime_manifest(self.tm_env, c.event, 'linux')
+        if getattr(c, 'strip_linux_services', False):
+            c.manifest['endpoints'] = [e for e in c.manifest['endpoints'] if e.get('name') != 'ssh']
+            c.manifest['services'] = [sv for sv in c.manifest['services'] if sv.get('name') != 'sshd']
         from treadmill import appcfg
         c.unique = appcfg.manifest_unique_name(c.manifest)
         c.unresolvable = any(self._unresolvable(h) for h in c.manifest.get('passthrough', []))
